@@ -235,6 +235,9 @@ def run(ck):
             if d not in ds:
                 ds.append(d)
         batches.append((ds,))
+    # descriptions that get the SAME suggested merchant name but different patterns: both suggestions must take
+    batches.append((['ALFA #12 Bravo', 'ALFA Bravo', 'Zulu market DES:PAYMENT ID:1029', 'Zulu market DES:CASHOUT ID:5647', 'STORE 12 WA', 'STORE 12345',
+                     'SQ *Bravo market', 'Bravo market 98101', 'TST* Émile STORE', 'Émile STORE #9 extra'],))
     for descs, items, before, after in par.pmap(cli_batch, batches):
         ck.case(n=len(descs))
         ck.trace(1)
